@@ -35,6 +35,7 @@ table, independent of kodama's union–find) run on every dendrogram the harness
 import Kodama.Lemmas.RelabelWF
 import Kodama.Lemmas.MstRun
 import Kodama.Lemmas.PrimRun
+import Kodama.Lemmas.GenericRun
 import Kodama.Spec.WellFormed
 import Kodama.Model.Linkage
 namespace Kodama
@@ -146,5 +147,39 @@ theorem C01_sizes_pos (n : Nat) (steps : List (Step α)) (h : WellFormed n steps
     have h1 := hpos s.c1 (by omega)
     have h2 := hpos s.c2 hord.2
     omega
+
+end Kodama
+
+/-!
+### Appended: `generic_with`
+
+`C01_generic` closes the gap named in the header for `generic_with`: under the explicit value
+hypotheses of `Lemmas/GenericInv.lean` (`GoodSet G`: a user-chosen set of non-NaN values strictly
+below `T::max_value()` with `v == v`; `UpdClosed G m`: `G` is closed under the Lance–Williams
+update of `m` as `generic.rs` calls it — proved outright for `single` and `complete`; every
+(squared) input in `G`; `max_value` not NaN; `OrderLaws`), the raw merge steps of `generic_with`
+form a spanning tree (`genericWith_eq`), hence the result is well-formed.  The loop invariant is
+`GenInv` (`Lemmas/GenericRun.lean`).
+-/
+namespace Kodama
+open Spec
+variable {α : Type} [Num α]
+
+theorem C01_generic {G : α → Prop} (L : OrderLaws α) (gs : GoodSet G) (chk : Bool) (m : Method)
+    (hcl : UpdClosed G m) (hmax : Num.isNaN (Num.maxValue : α) = false)
+    (st st' : State α) (d d' : Dendrogram α) (data : Array α) (n : Nat) (M' : Mat α)
+    (h2 : 2 ≤ n) (hs : n < 2147483648) (hl : 2 * data.size = n * (n - 1))
+    (hin : ∀ i (h : i < (squareData m data).size), G (squareData m data)[i])
+    (h : genericWith chk m st d data n = .ok (st', d', M')) :
+    d'.obs = n ∧ WellFormed n d'.steps.toList := by
+  obtain ⟨st1, dend1, M1, hres, _, heq⟩ :=
+    genericWith_eq L gs chk m hcl hmax st d data n h2 hs hl hin
+  rw [heq] at h
+  obtain ⟨⟨uf, rel⟩, hrel, hr⟩ := bind_ok.mp h
+  simp only [pure_ok, Prod.mk.injEq] at hr
+  rw [← hr.2.1]
+  have := C01_relabel m st1.set uf dend1 rel n h2 hres.obs hres.raw hrel
+  refine ⟨?_, wellFormed_sqrtSteps m n rel this.2⟩
+  unfold sqrtSteps; split <;> exact this.1
 
 end Kodama
